@@ -55,8 +55,8 @@ def case_hash(case):
     return hashlib.sha1(jdump(case).encode()).hexdigest()[:16]
 
 
-def ok(nt=False, labels=(), view=None, key=None, skip=None):
-    return {"nt": bool(nt), "labels": list(labels), "view": view, "key": key, "skip": skip}
+def ok(nt=False, labels=(), view=None, key=None, skip=None, counters=None):
+    return {"nt": bool(nt), "labels": list(labels), "view": view, "key": key, "skip": skip, "counters": counters}
 
 
 class Watchdog:
@@ -112,6 +112,7 @@ class Runner:
         self.known_hits = Counter()
         self.timeouts = 0
         self.skipped = Counter()
+        self.counters = Counter()
         self.errors = []
 
     def classify(self, case, v):
@@ -136,6 +137,10 @@ class Runner:
             if fid:
                 return "known", fid
             return "violation", v
+        except Exception:
+            # an exception the property module did not classify: harness error, never a VIOLATION
+            self.errors.append(traceback.format_exc()[-3000:])
+            return "error", None
         except CaseTimeout:
             if self.hang_is_violation:
                 # confirm alone with a longer limit
@@ -165,6 +170,8 @@ class Runner:
                 self.skipped[res["skip"]] += 1
             for lab in res.get("labels", ()):
                 self.labels[lab] += 1
+            for k, v in (res.get("counters") or {}).items():
+                self.counters[k] += v
             if res.get("nt"):
                 h = res.get("key") or case_hash(case)
                 if h not in self.nt:
@@ -176,6 +183,9 @@ class Runner:
             self.violations.append((v.kind, v.msg, case))
         elif status == "known":
             self.known_hits[payload] += 1
+        elif status == "error":
+            if len(self.errors) > 20:
+                raise RuntimeError("too many unclassified exceptions; first: " + self.errors[0])
         else:
             self.timeouts += 1
         return status, payload
@@ -299,6 +309,9 @@ def worker_main(argv):
             known_hits=dict(r.known_hits),
             timeouts=r.timeouts,
             skipped=dict(r.skipped),
+            counters=dict(r.counters),
+            case_errors=r.errors[:3],
+            n_case_errors=len(r.errors),
             budget_hit=budget_hit,
             hseed=hseed,
             wall=time.time() - t0,
@@ -467,6 +480,7 @@ def main(argv=None):
     labels = Counter()
     known_hits = Counter()
     skipped = Counter()
+    counters = Counter()
     samples = []
     timeouts = 0
     for r in results:
@@ -474,6 +488,8 @@ def main(argv=None):
         labels.update(r["labels"])
         known_hits.update(r["known_hits"])
         skipped.update(r["skipped"])
+        counters.update(r.get("counters", {}))
+        errors.extend(r.get("case_errors", []))
         timeouts += r["timeouts"]
         for s in r["samples"]:
             if len(samples) < 5:
@@ -504,6 +520,7 @@ def main(argv=None):
         "regression_replays": n_reg,
         "known_finding_instances_seen": dict(known_hits),
         "excluded_or_skipped": dict(skipped),
+        "counters": dict(counters),
         "inconclusive_timeouts": timeouts,
         "violating_cases_seen": n_viol_cases,
         "shards": nshards,
